@@ -55,6 +55,9 @@ func c17Script(g *Gen, maxN int, endings string) SrcSpec {
 		end.K = "C"
 	case 'E':
 		end.K, end.V = "E", g.Range(1, 9)
+		if g.Bool(0.15) {
+			end.V = NilError // the stream fails with a nil error: still an Error notification
+		}
 	}
 	if end.K != "" {
 		if mode == "timed" {
@@ -137,6 +140,7 @@ func genC17FromChannel(g *Gen) *Scn {
 	sc.Sources = []SrcSpec{spec}
 	sc.SetInt("cap", g.Range(0, 3))
 	sc.SetInt("subat", g.PickInt(0, 0, 1, 2))
+	sc.SetInt("subctx", g.PickInt(0, 0, 0, 1, 2, 3, 5))
 	if g.Bool(0.5) {
 		sc.SetInt("cut", 1)
 		sc.SetInt("at", g.Range(0, 2*c17Span(spec)+4))
@@ -870,7 +874,19 @@ func runC17FromChannel(e *Env) {
 	}
 	rec := e.NewRec("o")
 	var recv <-chan int = ch
-	h := e.Subscribe(ro.FromChannel(recv), rec.Observer(), nil)
+	var subCtx context.Context
+	if k := sc.Int("subctx", 0); k > 0 {
+		// the subscription context ends (1: before Subscribe, k: k-1 half units later) while the subscription
+		// stays open: a context that is over is not an unsubscription, the reader keeps reading
+		c, cancel := simcontext.WithCancel(context.Background())
+		subCtx = c
+		if k == 1 {
+			cancel()
+		} else {
+			e.Go("canceller", func() { simSleep(time.Duration(k-1) * Unit / 2); cancel() })
+		}
+	}
+	h := e.Subscribe(ro.FromChannel(recv), rec.Observer(), subCtx)
 
 	unsubInvoked, unsubReturned, unsubSkipped := false, false, false
 	consumedAtReturn, eventsAtSettle := 0, 0
